@@ -3,6 +3,7 @@
 package props
 
 import (
+	"bufio"
 	"bytes"
 	"encoding/base64"
 	"encoding/json"
@@ -30,6 +31,11 @@ type c07Case struct {
 	RngSeed  uint64 `json:"schedule_seed"`
 	// ErrKind: which error value the source fails with ("" = a private injected error)
 	ErrKind string `json:"source_error,omitempty"`
+	// Drain: how the returned stream is consumed: "" = Read calls; "copy@k" = k bytes with Read, the
+	// rest with io.Copy (which uses the stream's WriteTo when it has one)
+	Drain string `json:"drain,omitempty"`
+	// Bufio: the source handed to Load is itself a *bufio.Reader of this size over the monitored source
+	Bufio int `json:"source_is_bufio_reader_of_size,omitempty"`
 	// Seeker: the source is an io.ReadSeeker positioned Seeker bytes into a longer stream
 	// ("bytes.Reader" or "os.File"); only the bytes from that position on are the input
 	Seeker     string `json:"seekable_source,omitempty"`
@@ -119,7 +125,28 @@ func c07Load(data []byte, cs c07Case) c07Loaded {
 		return c07Loaded{cs, loadWith(cs.Loader, br), src.New(nil), data}
 	}
 	s := c07Source(data, cs)
+	if cs.Bufio > 0 {
+		return c07Loaded{cs, loadWith(cs.Loader, bufio.NewReaderSize(s, cs.Bufio)), s, data}
+	}
 	return c07Loaded{cs, loadWith(cs.Loader, s), s, data}
+}
+
+// boundedBuf is an io.Writer that stops accepting data beyond a limit (keeps the read-out bounded).
+type boundedBuf struct {
+	b     []byte
+	limit int64
+	over  bool
+}
+
+var errBoundedBuf = errors.New("read-out limit reached")
+
+func (w *boundedBuf) Write(p []byte) (int, error) {
+	if int64(len(w.b)+len(p)) > w.limit {
+		w.over = true
+		return 0, errBoundedBuf
+	}
+	w.b = append(w.b, p...)
+	return len(p), nil
 }
 
 // replayed carries an already drained stream (bytes, then its terminal error).
@@ -155,6 +182,28 @@ func c07Readout(l c07Loaded) (kind, msg string, mdOK bool) {
 				kind, msg = "panic", fmt.Sprintf("reading the stream returned by %s.Load panicked: %v", cs.Loader, p)
 			}
 		}()
+		if strings.HasPrefix(cs.Drain, "copy@") {
+			var k int
+			fmt.Sscanf(cs.Drain, "copy@%d", &k)
+			head := make([]byte, k)
+			n, herr := io.ReadFull(l.res.Stream, head)
+			got = append(got, head[:n]...)
+			bounded = true
+			if herr == nil {
+				rest := &boundedBuf{limit: int64(len(l.data)) + 1<<16}
+				_, rerr = io.Copy(rest, l.res.Stream) // uses the stream's WriteTo if it has one
+				got = append(got, rest.b...)
+				if rest.over {
+					bounded = false
+				}
+				if rerr == errBoundedBuf {
+					rerr = nil
+				}
+			} else if herr != io.EOF && herr != io.ErrUnexpectedEOF {
+				rerr = herr
+			}
+			return
+		}
 		got, rerr, bounded = src.ReadAllChunks(l.res.Stream, cs.ReadBuf, int64(len(l.data))+1<<16)
 	}()
 	if kind != "" {
@@ -309,6 +358,7 @@ func runC07(r *core.Run) {
 					if k%8 == 0 {
 						extras = append(extras, extraUnit{ji, cut, l, "seek", "os.File"})
 					}
+					extras = append(extras, extraUnit{ji, cut, l, "drain", fmt.Sprintf("copy@%d", rg.Intn(64))}, extraUnit{ji, cut, l, "bufio", core.Pick(rg, []string{"16", "4096", "65536"})})
 				}
 			}
 		}
@@ -371,6 +421,10 @@ func runC07(r *core.Run) {
 				if e.cut == 0 {
 					cs.Terminal = "error"
 				}
+			} else if e.kind == "drain" {
+				cs.Drain = e.arg
+			} else if e.kind == "bufio" {
+				fmt.Sscanf(e.arg, "%d", &cs.Bufio)
 			} else {
 				cs.Seeker, cs.SeekPrefix, cs.Schedule = e.arg, 1+rg.Intn(40), "all"
 			}
